@@ -85,6 +85,12 @@ def build_dest(address, d):
         return {"none": None, "float": 1.5, "str": "5", "bytes": b"\x05", "baseaddr": address.Address()}.get(d[1], d[1])
     if k == "num":
         return lookalike(d)
+    if k == "renum":
+        # an address object built with a legal number whose public number attribute was changed afterwards
+        _, kind, legal, now = d
+        o = build_dest(address, [kind, legal])
+        setattr(o, "group" if kind in ("ggroup", "dgroup") else "address", now)
+        return o
     raise ValueError(d)
 
 
@@ -218,7 +224,10 @@ def construct(case):
         kw = dict(case["kw"])
         if case.get("occ_tuple"):
             from dali.device.occupancy import OccupancyEvent
-            kw["data"] = OccupancyEvent.EventData(*case["occ_tuple"])
+            # strings as a program gets them at run time (parsed, decoded, joined): equal to the documented
+            # words but not the interned literals of anybody's source code
+            kw["data"] = OccupancyEvent.EventData(*[bytes(x, "ascii").decode("ascii").lower() if isinstance(x, str) else x
+                                                    for x in case["occ_tuple"]])
         for k, v in list(kw.items()):
             if isinstance(v, list) and v and v[0] in ("raw", "num"):
                 kw[k] = build_dest(address, v)
@@ -229,6 +238,22 @@ def construct(case):
             elif isinstance(v, list) and v and v[0] in ("dgroup", "dbcast", "dunaddr", "gshort", "ggroup", "gbcast", "gunaddr"):
                 kw[k] = build_dest(address, v)
         return cls(**kw)
+    raise ValueError(fam)
+
+
+def construct_with_dest(case, dest_obj):
+    """construct(case) with the given destination object instead of a freshly built one."""
+    command, frame, address = _load()
+    cls = class_by_path(case["cls"])
+    fam = case["fam"]
+    if fam == "_StandardCommand":
+        return cls(dest_obj, *[unraw(x) for x in case.get("params", [])])
+    if fam == "DAPC":
+        return cls(dest_obj, unraw(case["power"]))
+    if fam == "_StandardDeviceCommand":
+        return cls(dest_obj)
+    if fam == "_StandardInstanceCommand":
+        return cls(dest_obj, build_instance(address, case["inst"]))
     raise ValueError(fam)
 
 
@@ -270,6 +295,20 @@ def run_case(case):
         return [("C02:legal-construct-raised:%s:%s" % (name, type(e).__name__), "%s: %r" % (where, e))]
     out = []
     try:
+        if "dest" in case and case["dest"][0] in ("gshort", "ggroup", "dshort", "dgroup") and case.get("sibling") is not None:
+            # the caller keeps using ITS address object (walks it over the addresses while preparing a batch):
+            # a command built earlier still carries the destination it was given
+            twin = construct(case).frame
+            d0 = build_dest(address, case["dest"])
+            c2 = dict(case)
+            late = construct_with_dest(c2, d0)
+            fld = "group" if case["dest"][0] in ("ggroup", "dgroup") else "address"
+            setattr(d0, fld, (getattr(d0, fld) + 1) % (16 if case["dest"][0] == "ggroup" else 32))
+            lf = late.frame
+            if (len(lf), lf.as_integer) != (len(twin), twin.as_integer):
+                out.append(("C02:frame-follows-callers-address-object:" + case["fam"],
+                            "%s: frame %#x after the caller renumbered its address object, %#x when built from a fresh one"
+                            % (where, lf.as_integer, twin.as_integer)))
         f = obj.frame
         if case.get("sibling"):
             # a second object of the same class is built while this one is still in use: each keeps its own frame
@@ -532,6 +571,9 @@ def illegal_cases(path, fam, cls):
                        ("bytes", ["raw", "bytes"]), ("device-short", ["dshort", 5]), ("device-group", ["dgroup", 5]),
                        ("device-broadcast", ["dbcast"]), ("device-unaddressed", ["dunaddr"]), ("base-address", ["raw", "baseaddr"])]:
             yield dict(legal, dest=v, illegal="destination:" + tag)
+        for kind_, top_ in (("gshort", 63), ("ggroup", 15)):
+            for tag, x in bad_ints(top_):
+                yield dict(legal, dest=["renum", kind_, 5, x], illegal="destination:%s-renumbered-%s" % (kind_, tag))
         if fam == "DAPC":
             for tag, v in list(bad_ints(255)) + [("none", None), ("float", 1.5), ("str", "5"), ("other-str", "ON")] + \
                     [(t, ["num", k, 100]) for t, k in LOOKALIKES]:
@@ -560,6 +602,9 @@ def illegal_cases(path, fam, cls):
                        ("str", ["raw", "str"]), ("gear-short", ["gshort", 5]), ("gear-group", ["ggroup", 5]),
                        ("gear-broadcast", ["gbcast"]), ("gear-unaddressed", ["gunaddr"]), ("base-address", ["raw", "baseaddr"])]:
             yield dict(legal, dest=v, illegal="destination:" + tag)
+        for kind_, top_ in (("dshort", 63), ("dgroup", 31)):
+            for tag, x in bad_ints(top_):
+                yield dict(legal, dest=["renum", kind_, 5, x], illegal="destination:%s-renumbered-%s" % (kind_, tag))
         if fam == "_StandardInstanceCommand":
             for tag, v in [("int", 5), ("none", "none"), ("str", "str"), ("float", "float")]:
                 yield dict(legal, inst=v, rawinst=True, illegal="instance:" + tag) if isinstance(v, int) else \
